@@ -31,9 +31,12 @@ Empties == {[allOf |-> <<>>, properties |-> EmptyFcn, prefixItems |-> <<>>, defs
             [anyOf |-> <<>>], [oneOf |-> <<>>], [itemsArray |-> <<>>], [properties |-> [a |-> [anyOf |-> <<>>, oneOf |-> <<>>]]],
             [items |-> [itemsArray |-> <<>>, patternProperties |-> EmptyFcn, dependentSchemas |-> EmptyFcn]],
             [allOf |-> <<[prefixItems |-> <<>>, depSchemas |-> EmptyFcn, definitions |-> EmptyFcn]>>]}
+\* the empty schema ("true") and the falsy schema {"not": {}} as a child: they are Schema objects like any other
+TrueKids == {OneUnder(kw, EmptyFcn) : kw \in AllKW} \cup {OneUnder(kw, [not |-> EmptyFcn]) : kw \in AllKW}
+            \cup {OneUnder(k1, OneUnder(k2, EmptyFcn)) : k1 \in {"items", "allOf", "properties", "not", "if"}, k2 \in AllKW}
 D3 == {OneUnder(k1, OneUnder(k2, OneUnder(k3, Leaf(1)))) : k1 \in {"items", "allOf", "properties", "not"}, k2 \in AllKW, k3 \in {"if", "oneOf", "depSchemas", "defs"}}
 D3all == {OneUnder(k1, OneUnder(k2, OneUnder(k3, Leaf(1)))) : k1 \in AllKW, k2 \in AllKW, k3 \in {"if", "oneOf", "depSchemas", "defs", "items", "patternProperties"}}
-Trees == IF K >= 3 THEN UNION {D1, D2, Wide, Empties, D3, D3all} ELSE IF K >= 2 THEN UNION {D1, D2, Wide, Empties, D3} ELSE UNION {D1, D2, Wide, Empties}
+Trees == IF K >= 3 THEN UNION {D1, D2, Wide, Empties, TrueKids, D3, D3all} ELSE IF K >= 2 THEN UNION {D1, D2, Wide, Empties, TrueKids, D3} ELSE UNION {D1, D2, Wide, Empties, TrueKids}
 
 Init == cs \in Trees /\ phase = "new"
 Next == phase = "new" /\ phase' = "done" /\ cs' = cs
